@@ -391,8 +391,15 @@ def run_case(case):
         late.train(model.training)
         c64 = ctx.double() if ctx is not None else None
         with torch.no_grad():
-            oL, lL = late(x.double(), c64)
             oR, lR = m64(x.double(), c64)
+            try:
+                oL, lL = late(x.double(), c64)
+            except Exception as e_late:
+                # the twin converted before its first call works, the one converted after a float32 call does not
+                r.ev()
+                r.viol("late_conversion", "%s converted with .double() after a float32 call raises where the twin converted before "
+                       "its first call works" % label, exc=repr(e_late)[:200], **det)
+                raise
         r.ev()
         r.count("late_conversion_checks")
         dtype_clause(r, label, "forward outputs after .double() of a used model", oL, torch.float64, det)
